@@ -257,6 +257,99 @@ fn stress(seed: u64, total: u64, tagged: bool) -> String {
     )
 }
 
+/// C02 under concurrency: the writer tags sample `v` with key "a" iff v % 5 == 0 and with key "b" iff
+/// v % 7 == 3 (so the first sample of many commits carries a tag), value = v. Every window the reader
+/// takes must report exactly the tags of its own samples: each once, inside the window, on its sample,
+/// none missing — while the writer keeps committing.
+fn tag_stress(seed: u64, total: u64) -> String {
+    use rustradio::stream::{Tag, TagValue};
+    verif::set_stream_size(4096);
+    let (w, r) = new_stream::<u64>();
+    verif::set_stream_size(0);
+    let stop = Arc::new(AtomicBool::new(false));
+    let _wd = deadline(120, format!("tag stress seed={seed} total={total}: two free-running threads on one stream"));
+    let th = {
+        let stop = stop.clone();
+        std::thread::spawn(move || {
+            let mut rng = Rng::new(seed);
+            let mut next = 0u64;
+            while next < total && !stop.load(Ordering::SeqCst) {
+                let mut b = w.write_buf().unwrap();
+                let len = b.len();
+                if len == 0 {
+                    drop(b);
+                    let _ = w.wait_for_write(1);
+                    continue;
+                }
+                let k = len.min(if rng.chance(1, 8) { rng.range(1, 40) } else { rng.range(1, 3) }).min((total - next) as usize);
+                let mut tags = vec![];
+                for i in 0..k {
+                    let v = next + i as u64;
+                    b.slice()[i] = v;
+                    if v % 5 == 0 {
+                        tags.push(Tag::new(i, "a", TagValue::U64(v)));
+                    }
+                    if v % 7 == 3 {
+                        tags.push(Tag::new(i, "b", TagValue::U64(v)));
+                    }
+                }
+                b.produce(k, &tags);
+                next += k as u64;
+            }
+        })
+    };
+    let mut rng = Rng::new(seed ^ 0x7A65);
+    let mut expect = 0u64;
+    let mut err = String::new();
+    let mut spins = 0u64;
+    while expect < total && err.is_empty() {
+        let (b, tags) = r.read_buf().unwrap();
+        let len = b.len();
+        if len == 0 {
+            drop(b);
+            if r.wait_for_read(1) {
+                err = format!("wait_for_read(1) said never at {expect} of {total}");
+            }
+            spins += 1;
+            if spins > 10_000_000 {
+                err = "stuck".into();
+            }
+            continue;
+        }
+        let mut want: Vec<(usize, &str, u64)> = vec![];
+        for i in 0..len {
+            let v = expect + i as u64;
+            if v % 5 == 0 {
+                want.push((i, "a", v));
+            }
+            if v % 7 == 3 {
+                want.push((i, "b", v));
+            }
+        }
+        let got: Vec<(usize, String, u64)> = tags
+            .iter()
+            .map(|t| (t.pos(), t.key().to_string(), match t.val() { TagValue::U64(v) => *v, _ => u64::MAX }))
+            .collect();
+        let same = got.len() == want.len() && got.iter().zip(&want).all(|(g, w)| g.0 == w.0 && g.1 == w.1 && g.2 == w.2);
+        if !same {
+            let extra: Vec<_> = got.iter().filter(|g| !want.iter().any(|w| g.0 == w.0 && g.1 == w.1 && g.2 == w.2)).take(2).collect();
+            let missing: Vec<_> = want.iter().filter(|w| !got.iter().any(|g| g.0 == w.0 && g.1 == w.1 && g.2 == w.2)).take(2).collect();
+            err = format!(
+                "window of {len} samples starting at sample {expect}: {} tags reported, {} expected; not expected {extra:?}, missing {missing:?}",
+                got.len(),
+                want.len()
+            );
+            break;
+        }
+        let m = if rng.chance(1, 4) { rng.range(0, len) } else { len };
+        b.consume(m);
+        expect += m as u64;
+    }
+    stop.store(true, Ordering::SeqCst);
+    th.join().unwrap();
+    format!("!tagstress seed={seed} total={total}\t{}", if err.is_empty() { "pass".to_string() } else { format!("FAIL {err}") })
+}
+
 pub fn run(args: &[String]) -> Vec<String> {
     let seed = arg_usize(args, "--seed", 1) as u64;
     let cases = arg_usize(args, "--cases", 1000);
@@ -275,8 +368,15 @@ pub fn run(args: &[String]) -> Vec<String> {
             )),
         }
     }
+    let tagged_only = arg_usize(args, "--tagged-only", 0) != 0;
+    let tag_total = arg_usize(args, "--tag-stress-total", 300_000) as u64;
+    for i in 0..arg_usize(args, "--tag-stress", 0) {
+        out.push(tag_stress(seed.wrapping_mul(7919).wrapping_add(i as u64), tag_total));
+    }
     for i in 0..stress_runs {
-        out.push(stress(seed.wrapping_mul(1000).wrapping_add(i as u64), stress_total, false));
+        if !tagged_only {
+            out.push(stress(seed.wrapping_mul(1000).wrapping_add(i as u64), stress_total, false));
+        }
         out.push(stress(seed.wrapping_mul(1000).wrapping_add(500 + i as u64), stress_total / 4, true));
     }
     out
